@@ -11,6 +11,7 @@ import (
 	"net/http"
 	"net/http/httptest"
 	"strings"
+	"sync"
 
 	"github.com/megaease/easegress/pkg/context"
 	"github.com/megaease/easegress/pkg/logger"
@@ -57,9 +58,15 @@ type vHandler struct {
 
 func (h *vHandler) Handle(ctx *context.Context) string {
 	req := ctx.GetInputRequest().(*httpprot.Request)
-	h.rig.cur.Backend = h.name
-	h.rig.cur.Path = req.Path()
-	h.rig.cur.XFF = req.HTTPHeader().Get("X-Forwarded-For")
+	cur := h.rig.cur
+	if id := req.HTTPHeader().Get("X-Verif-Obs"); id != "" {
+		vIsoMu.Lock()
+		cur = vIso[id]
+		vIsoMu.Unlock()
+	}
+	cur.Backend = h.name
+	cur.Path = req.Path()
+	cur.XFF = req.HTTPHeader().Get("X-Forwarded-For")
 	resp, _ := httpprot.NewResponse(nil)
 	resp.SetStatusCode(200)
 	ctx.SetOutputResponse(resp)
@@ -93,6 +100,29 @@ func vNewSpec(yamlSpec string) (ss *supervisor.Spec, err error) {
 	}()
 	return supervisor.NewSpec(yamlSpec)
 }
+
+// doIsolated is do() for concurrent callers: the observation travels in a request header instead of rig.cur.
+func (r *vRig) doIsolated(q vReq) vObs {
+	o := &vObs{}
+	vIsoMu.Lock()
+	vIsoSeq++
+	id := fmt.Sprint(vIsoSeq)
+	vIso[id] = o
+	vIsoMu.Unlock()
+	q.Hdr = append(q.Hdr, [2]string{"X-Verif-Obs", id})
+	st := r.do(q)
+	o.Status = st.Status
+	vIsoMu.Lock()
+	delete(vIso, id)
+	vIsoMu.Unlock()
+	return *o
+}
+
+var (
+	vIsoMu  sync.Mutex
+	vIsoSeq int
+	vIso    = map[string]*vObs{}
+)
 
 func (r *vRig) do(q vReq) vObs {
 	o := &vObs{}
